@@ -936,6 +936,9 @@ pub fn alphabet_c14(tier: Tier, full: bool) -> Vec<SOp> {
         SOp::Redelegate { d: 1, src: 0, dst: 1, amt: 1 },
         SOp::Withdraw { d: 0, v: 0 },
         SOp::Advance { secs: UNBONDING - 1 },
+        // half a second short of the unbonding period: block times are not whole seconds (the default
+        // block time ends in .879 s), so "not before" is decided below the second
+        SOp::AdvanceNanos { nanos: UNBONDING * 1_000_000_000 - 500_000_000 },
         SOp::Delegate { d: 0, v: 1, amt: 2, denom: 0 },
         SOp::Undelegate { d: 1, v: 0, amt: 2, denom: 0 },
         SOp::Slash { v: 0, pct: 100 },
@@ -1135,12 +1138,30 @@ pub fn run_c16(ctx: &Ctx) -> i32 {
             n
         })
         .sum();
+    // block times below the second with stakes large enough that a tenth of a second of reward is
+    // worth hundreds of tokens: what has accrued up to the very moment of the slash stays
+    let big = 1_000_000_000_000u128;
+    let alpha2 = vec![
+        SOp::Delegate { d: 0, v: 0, amt: big, denom: 0 },
+        SOp::Delegate { d: 1, v: 0, amt: 3 * big, denom: 0 },
+        SOp::AdvanceNanos { nanos: 100_000_000 },
+        SOp::AdvanceNanos { nanos: 750_000_000 },
+        SOp::Slash { v: 0, pct: 50 },
+        SOp::Slash { v: 0, pct: 10 },
+        SOp::Undelegate { d: 1, v: 0, amt: big, denom: 0 },
+    ];
+    let cfg2 = Cfg { check_rewards: false, prop: "C16".into(), funds: 10 * big };
+    let out2 = explore(ctx, &nm, &alpha2, ctx.tier.pick(4, 6), &cfg2, false, 2_000_000);
     finish(
         ctx,
-        vec![("slash-histories", &out, alpha.iter().map(sop_label).collect::<Vec<_>>())],
+        vec![("slash-histories", &out, alpha.iter().map(sop_label).collect::<Vec<_>>()), ("sub-second-block-times-large-stakes", &out2, alpha2.iter().map(sop_label).collect::<Vec<_>>())],
         n,
         json!({"depth": depth, "slash_fractions_tried_in_every_state": fractions, "validators": ["v1", "v2", "unknown"], "then": "a second slash (25% of v1) and a block update maturing all unbondings"}),
-        std_assumptions(),
+        {
+            let mut a = std_assumptions();
+            a.push("second exploration: block steps of 0.1 s and 0.75 s with stakes of 10^12 and 3*10^12".into());
+            a
+        },
     )
 }
 
@@ -1255,6 +1276,7 @@ pub fn run_c15(ctx: &Ctx) -> i32 {
         SOp::Delegate { d: 1, v: 0, amt: 3 * big, denom: 0 },
         SOp::AdvanceNanos { nanos: 750_000_000 },
         SOp::AdvanceNanos { nanos: 1_500_000_000 },
+        SOp::AdvanceNanos { nanos: 100_000_000 },
         SOp::Advance { secs: 1 },
         SOp::Withdraw { d: 0, v: 0 },
         SOp::Withdraw { d: 1, v: 0 },
@@ -1269,7 +1291,7 @@ pub fn run_c15(ctx: &Ctx) -> i32 {
         json!({"depth": depth, "stakes": [100, 333], "time_steps_s": [YEAR / 3, YEAR / 2, YEAR, 1], "split_variants": "every advance of {1/3 y, 1/2 y, 1 y, 7 s} from every explored state, unsplit vs split into 2 and 3 block updates"}),
         {
             let mut a = std_assumptions();
-            a.push("main exploration: whole-second block times, stakes 100 / 333; second exploration: block steps of 0.75 s, 1.5 s and 1 s with stakes of 10^12 and 3*10^12 (one second of reward = thousands of tokens)".into());
+            a.push("main exploration: whole-second block times, stakes 100 / 333; second exploration: block steps of 0.1 s, 0.75 s, 1.5 s and 1 s with stakes of 10^12 and 3*10^12 (one second of reward = thousands of tokens)".into());
             a.push("rewards not withdrawn before a delegation drops to zero are outside the statement (periods of positive delegation only)".into());
             a
         },
@@ -1294,7 +1316,14 @@ pub fn replay(ctx: &Ctx, case: &Value) {
         all.push(SOp::Advance { secs: s });
     }
     let big = 1_000_000_000_000u128;
+    all.extend([SOp::AdvanceNanos { nanos: 100_000_000 }, SOp::AdvanceNanos { nanos: UNBONDING * 1_000_000_000 - 500_000_000 }, SOp::Slash { v: 0, pct: 50 }, SOp::Slash { v: 0, pct: 10 }]);
     all.extend([SOp::AdvanceNanos { nanos: 750_000_000 }, SOp::AdvanceNanos { nanos: 1_500_000_000 }, SOp::Delegate { d: 0, v: 0, amt: big, denom: 0 }, SOp::Delegate { d: 1, v: 0, amt: 3 * big, denom: 0 }, SOp::Undelegate { d: 1, v: 0, amt: big, denom: 0 }]);
+    // histories of the large-stake explorations need the large initial balances
+    let mut cfg = cfg;
+    let hist: Vec<SOp> = case["history"].as_array().cloned().unwrap_or_default().iter().map(|o| sop_parse(o.as_str().unwrap_or(""), &all)).collect();
+    if hist.iter().any(|o| matches!(o, SOp::Delegate { amt, .. } if *amt >= big)) {
+        cfg.funds = 10 * big;
+    }
     let mut app = build(&nm, cfg.funds);
     let b0 = app.block_info();
     app.set_block(b0);
